@@ -75,6 +75,14 @@ def seeded(ctx, rng, per_solver):
     for solver in ivpgen.SOLVERS:
         for j in range(per_solver):
             t0, t1, dtmin, dtmax, tol, span = ivpgen.random_config(rng, solver, long_ok=(solver != "euler"))
+            if solver == "euler" and rng.random() < 0.3:
+                # a whole number of non-dyadic steps: the accumulated time + dt + dt + ... lands a rounding error below
+                # (or above) the product n * dt, and the step time just before the end must still get its point
+                dtmax = rng.choice([0.1, 0.3, 0.7, 1.0 / 3.0, 0.01, 0.07]) * rng.choice([1.0, 1.0, 0.5, 3.0])
+                dtmin = dtmax
+                t0 = rng.choice([0.0, 0.0, 1.0, -2.0])
+                t1 = t0 + rng.randint(3, 60) * dtmax
+                span = t1 - t0
             hsteps = {"adams3": 2, "adams5": 4, "bdf2": 2, "bdf6": 6}.get(solver)
             if hsteps and rng.random() < 0.15:
                 # the end sits within a few ulps of where the start-up's own steps land: time + h + h + ... (repeated
@@ -95,7 +103,7 @@ def seeded(ctx, rng, per_solver):
                 kinds = [k for k in kinds if k not in ("recip", "logistic")]
             rhs, y0, _ = ivpgen.system(rng, dim, span, t0, kinds=kinds)
             cases.append(ivpgen.base_case(0, solver, dim, t0, t1, dtmin, dtmax, tol, rhs, y0, origin="seeded",
-                                          dyn=(rng.random() < 0.2), max_items=1000000,
+                                          dyn=(rng.random() < 0.2), max_items=1000000, min_first=(j % 2 == 1),
                                           snaps=(j % 3 == 0 and span / dtmax <= 300),       # design level on a third of the runs,
                                           evals=(j % 3 == 0 and span / dtmax <= 300)))      # with the derivative-evaluation times
     return cases
